@@ -376,7 +376,17 @@ pub fn gen_request(
 ) -> (Value, &'static str) {
     let method = REQUEST_KINDS[rng.weighted(&[4, 3, 2, 3, 4, 4, 4])];
     let td = json!({"uri": doc_uri});
-    let (pos, mut pclass) = gen_position(rng, text);
+    let (mut pos, mut pclass) = gen_position(rng, text);
+    // symbol-based requests do real work only on identifiers: half of them aim at one
+    if matches!(method, "textDocument/hover" | "textDocument/definition" | "textDocument/prepareRename" | "textDocument/rename") && rng.chance(1, 2) {
+        let r = gen_token_range(rng, text, 0);
+        let on_start = rng.chance(1, 2);
+        pos = if on_start { r["start"].clone() } else {
+            let (s, e) = (r["start"]["character"].as_u64().unwrap_or(0), r["end"]["character"].as_u64().unwrap_or(0));
+            json!({"line": r["start"]["line"], "character": (s + e) / 2})
+        };
+        pclass = if on_start { "ident_start" } else { "ident_mid" };
+    }
     let params = match method {
         "textDocument/hover" | "textDocument/definition" | "textDocument/prepareRename" => {
             json!({"textDocument": td, "position": pos})
@@ -446,7 +456,7 @@ pub fn gen_request(
                     2 => String::new(),
                     _ => "scanner '' \u{1F600}".to_string(),
                 };
-                let range = if rng.chance(1, 2) { gen_token_range(rng, text) } else { json!({"start": a, "end": b}) };
+                let range = if rng.chance(1, 2) { gen_token_range(rng, text, 2) } else { json!({"start": a, "end": b}) };
                 let mut d = json!({"range": range, "message": msg});
                 match rng.below(4) {
                     0 => {}
@@ -521,6 +531,37 @@ pub fn mutate_text(rng: &mut Rng, text: &str) -> String {
     chars.into_iter().collect()
 }
 
+/// Re-encodes a text without changing its meaning: CRLF everywhere, line ends mixed line by
+/// line (LF / CRLF, rarely a lone CR), multi-byte characters in comments in front of, between and
+/// behind the lines.  The property names "multi-byte characters and CRLF" explicitly.
+pub fn reencode(rng: &mut Rng, text: &str) -> String {
+    let unified = text.replace("\r\n", "\n");
+    let lines: Vec<&str> = unified.split('\n').collect();
+    let style = rng.below(4); // 0 CRLF, 1 mixed, 2 mixed + multi-byte comments, 3 multi-byte comments only
+    let mut out = String::new();
+    for (i, l) in lines.iter().enumerate() {
+        if style >= 2 && rng.chance(1, 4) {
+            let c = *rng.pick(&["// \u{fc}\u{e4}\u{f6}", "/* \u{1F600} */", "// \u{65e5}\u{672c}", "// \u{e9}"]);
+            out.push_str(c);
+            out.push_str(if style == 2 && rng.chance(1, 2) { "\r\n" } else { "\n" });
+        }
+        out.push_str(l);
+        if i + 1 < lines.len() {
+            let eol = match style {
+                0 => "\r\n",
+                1 | 2 => match rng.below(8) {
+                    0..=3 => "\n",
+                    4..=6 => "\r\n",
+                    _ => "\r",
+                },
+                _ => "\n",
+            };
+            out.push_str(eol);
+        }
+    }
+    out
+}
+
 /// A small, editor-like edit of the current text (the next version of a document is usually
 /// the previous one with a line commented out, removed, duplicated, a few characters typed...).
 pub fn derive_edit(rng: &mut Rng, prev: &str) -> String {
@@ -590,10 +631,10 @@ pub fn derive_edit(rng: &mut Rng, prev: &str) -> String {
 }
 
 /// A range that covers exactly one token of the text (preferring lines with directives).
-pub fn gen_token_range(rng: &mut Rng, text: &str) -> Value {
+pub fn gen_token_range(rng: &mut Rng, text: &str, directive_bias_thirds: u64) -> Value {
     let lines: Vec<&str> = text.split('\n').collect();
     let directive_lines: Vec<usize> = (0..lines.len()).filter(|i| lines[*i].contains('%')).collect();
-    let li = if !directive_lines.is_empty() && rng.chance(2, 3) {
+    let li = if !directive_lines.is_empty() && rng.chance(directive_bias_thirds, 3) {
         *rng.pick(&directive_lines)
     } else {
         rng.usize_below(lines.len())
@@ -667,6 +708,9 @@ pub fn gen_c30(rng: &mut Rng, corpus: &Corpus, cfg: &C30Config) -> Value {
             let mut ti = ti;
             if mutated {
                 text = mutate_text(rng, &text);
+            } else if rng.chance(1, 3) {
+                // same grammar, other encoding of line ends / extra multi-byte comments
+                text = reencode(rng, &text);
             }
             // half of the changes are small edits of the document's current text
             if let Some((prev, prev_ti, _)) = &text_of[d] {
